@@ -554,6 +554,17 @@ class Interp:
             if key in fr.locals:
                 return self.segment_for(s, fr, key)
         it = self.eval(s.iter, fr)
+        if isinstance(it, VRef):
+            # direct iteration over a live container object that the contract only knows by reference (the set of downstreams):
+            # the loop rule needs a sequence that the body cannot change.  `list(obj)` has a summary (a snapshot); iterating the
+            # live object instead is reported as a failed obligation and the snapshot is used to go on.
+            h = self.summaries.get('list:' + (it.cls or '?'))
+            if h is not None:
+                self.oblige('loop_iterates_over_a_snapshot_not_over_the_live_%s' % (it.cls or 'container'), z3.BoolVal(False),
+                            kind='callsite', note='a member that detaches itself (or attaches a sibling) during the loop changes the '
+                                                  'container under iteration: RuntimeError / skipped members')
+                self.st.obligations[-1].props = ['C01', 'C15', 'C05', 'C04']
+                it = h(self, it, [], {})
         if spec is None:
             # only concrete iteration is allowed without an invariant
             items = self.concrete_items(it)
@@ -679,6 +690,8 @@ class Interp:
             return list(it.items)
         if isinstance(it, (VSeq, VList)):
             t, k = self.seq_term(it)
+            if t is None:
+                return []           # a container that has never held anything (untyped empty)
             t = z3.simplify(t)
             parts = _concat_parts(t)
             if parts is not None and all(z3.is_app_of(p, z3.Z3_OP_SEQ_UNIT) for p in parts):
@@ -1502,7 +1515,21 @@ class Interp:
                 return self.spec_funcs['call_default'](self, 'builtin', f.name, None, args, kwargs)
             if h is None:
                 raise Unsupported('builtin %s' % f.name)
-            return h(self, args, kwargs, fr)
+            res = h(self, args, kwargs, fr)
+            if f.name in ('asyncio.gather', 'gen.convert_yielded', 'gen.multi') and isinstance(res, VAw):
+                # remember which lists of awaitables this future stands for (used by "what is emitted is awaited")
+                cov = []
+                for a in args:
+                    v = a[1] if isinstance(a, tuple) else a
+                    if isinstance(v, (VList, VSeq)):
+                        try:
+                            t, k = self.seq_term(v)
+                        except Unsupported:
+                            t = None
+                        if t is not None:
+                            cov.append(t)
+                res.covers = cov
+            return res
         if isinstance(f, VBound):
             return self.call_method(f.recv, f.name, args, kwargs, fr)
         if isinstance(f, VFunc):
